@@ -3249,10 +3249,28 @@ HP_read(filerec_t *file_rec, void *buf, int32 bytes)
             HGOTO_ERROR(DFE_INTERNAL, FAIL);
     } /* end if */
 
-    if (HI_READ(file_rec->file, buf, bytes) == FAIL) {
-        /* the stream position is unknown after a failed/short transfer */
-        file_rec->last_op = H4_OP_UNKNOWN;
-        HGOTO_ERROR(DFE_READERROR, FAIL);
+    {
+        int32 got = 0;
+
+        if (HI_READ_AVAIL(file_rec->file, buf, bytes, &got) == FAIL || got < 0 || got > bytes) {
+            /* the stream position is unknown after a failed transfer */
+            file_rec->last_op = H4_OP_UNKNOWN;
+            HGOTO_ERROR(DFE_READERROR, FAIL);
+        }
+        if (got < bytes) {
+            /* The file ends inside the requested range.  With DD caching on, space handed out by
+               HPgetdiskblock in this session (a length reserved by Hsetlength, a new linked block) lies
+               below f_end_off but the file itself is only extended at the next sync (FILE_END_DIRTY).
+               Such bytes are zeros once they exist: deliver zeros.  Anything else that is short - a read
+               beyond f_end_off, a file that lost its tail - stays an error. */
+            file_rec->last_op = H4_OP_UNKNOWN; /* the stream stands at the end of the file, not at f_cur_off */
+            if (!(file_rec->cache && (file_rec->dirty & FILE_END_DIRTY)) ||
+                bytes > file_rec->f_end_off - file_rec->f_cur_off)
+                HGOTO_ERROR(DFE_READERROR, FAIL);
+            memset((uint8 *)buf + got, 0, (size_t)(bytes - got));
+            file_rec->f_cur_off += bytes;
+            HGOTO_DONE(SUCCEED);
+        }
     }
     file_rec->f_cur_off += bytes;
     file_rec->last_op = H4_OP_READ;
